@@ -989,8 +989,8 @@ PROPS = {
     'C09': P(per_case(j_c09), [('reject', 150)], [('reject', 3000), ('reject+', 300)],
              'valid frames mutated by the four rules (cut inside a field per the field map, fifth varint byte, boolean 2..255, undefined identifier); distinct = distinct mutated frames; thorough adds the inputs Go native fuzzing keeps, on which model and decoder must accept/reject alike',
              extra=extra_fuzz),
-    'C10': P(per_case(j_c10), [('pkt', 900), ('odd', 500), ('rewrite', 400)], [('pkt', 30000), ('odd', 10000), ('pkt+', 1000), ('rewrite', 10000)],
-             'API-built packets (in-domain and constructible-malformed, zero values) x writers (succeed / fail / accept k bytes); distinct as C01'),
+    'C10': P(per_case(j_c10), [('pkt', 900), ('odd', 500), ('rewrite', 400), ('willmod', 150)], [('pkt', 30000), ('odd', 10000), ('pkt+', 1000), ('rewrite', 10000), ('willmod', 5000)],
+             'API-built packets (in-domain and constructible-malformed, zero values, CONNECTs whose will is changed after it was attached) x writers (succeed / fail / accept k bytes; *bytes.Buffer, a bare io.Writer, bufio.Writer); distinct as C01'),
     'C11': P(js_c11, [('pkt', 1200)], [('pkt', 30000)],
              'packets encoded repeatedly with read-only operations in between, in two processes; distinct as C01'),
     'C12': P(per_case(j_c12), [('hist', 1000)], [('hist', 40000)],
@@ -1008,7 +1008,7 @@ PROPS = {
              'Publish over topic/alias/QoS/packet id and Subscribe over filter count/sub id boundary/option bytes, judged by an independent predicate; distinct by the predicate inputs'),
     'C18': P(per_case(j_c18), [('cred', 800)], [('cred', 30000)],
              'pairs of CONNECT packets identical up to equally long credentials; distinct = distinct surrounding packets'),
-    'C19': P(per_case(j_c19), [('render', 1), ('hist', 300), ('odd', 400), ('malformed', 400), ('frames', 300)],
-             [('render', 1), ('hist', 10000), ('odd', 10000), ('malformed', 20000), ('frames', 10000)],
+    'C19': P(per_case(j_c19), [('render', 1), ('hist', 300), ('odd', 400), ('malformed', 400), ('frames', 300), ('willmod', 80), ('utf8', 300)],
+             [('render', 1), ('hist', 10000), ('odd', 10000), ('malformed', 20000), ('frames', 10000), ('willmod', 3000), ('utf8', 10000)],
              'String/Dump on zero values, packets under construction, decoded packets (valid and malformed-but-accepted), all 256 values of every rendered byte; distinct = distinct renderings'),
 }
